@@ -110,6 +110,10 @@ DFUfptoimage(int32 hdim, int32 vdim, float32 max, float32 min, float32 *hscale, 
     Input  in;
     Output out;
 
+    /* the output file name is kept in a fixed-size buffer */
+    if (outfile == NULL || strlen(outfile) >= sizeof(out.outfile))
+        return FAIL;
+
     in.hdim      = hdim;
     in.vdim      = vdim;
     in.max       = max;
